@@ -23,7 +23,7 @@ from vlib import audit, core, pyrun, treesnap
 ID = "C09"
 READY = True
 LEVEL = "exploration"
-RULE = ("2 hand-written specimen projects (package, relative imports, class hierarchy, out-of-project sibling "
+RULE = ("3 hand-written specimen projects (package, relative imports, class hierarchy, out-of-project sibling "
         "library on python_path that defines names the project uses, an ignored folder with the same names, a "
         "syntax-error file) x every offset (stride by tier) x 17 refactoring kinds x hostile arguments; "
         "non-trivial = request that returned changes and was performed; distinct = (kind, argument class, "
@@ -60,7 +60,6 @@ SPEC1 = {
     "main.py": (
         "import app.models as m\nfrom app.util import helper as h\nimport extlib\n\nacc = m.Account('me')\n"
         "print(acc.deposit(5, note='n'), m.total([acc]), h(3, y=1), extlib.shared(2), m.cache)\n"),
-    "broken.py": "def oops(:\n    pass\n",
     "ignored_dir/models.py": "class Account:\n    balance = 0\n\ndef helper(x):\n    return x\n",
 }
 EXT = {"extlib.py": "def shared(x):\n    return x + 1\n\n\nclass Base:\n    def __init__(self, owner):\n        self.owner = owner\n"}
@@ -72,8 +71,11 @@ SPEC2 = {
     "pkg/__init__.py": "from a import f as g\n",
     "pkg/c.py": "from . import g\nfrom a import *\n\nx = g(3) + f(4)\nlam = lambda z: z + K\n",
 }
-SPECIMENS = [("spec1", SPEC1, EXT, ["app/models.py", "app/util.py", "main.py", "broken.py"]),
-             ("spec2", SPEC2, {}, ["a.py", "b.py", "pkg/c.py", "pkg/__init__.py"])]
+# a project in which one module does not parse: project-wide refactorings must refuse cleanly
+SPEC3 = {"ok.py": "import extlib\n\ndef f(a):\n    return extlib.shared(a)\n\nv = f(1)\n", "broken.py": "def oops(:\n    pass\n"}
+SPECIMENS = [("spec1", SPEC1, EXT, ["app/models.py", "app/util.py", "main.py"]),
+             ("spec2", SPEC2, {}, ["a.py", "b.py", "pkg/c.py", "pkg/__init__.py"]),
+             ("spec3", SPEC3, EXT, ["ok.py", "broken.py"])]
 
 KINDS = ["rename", "rename-bad-name", "extract-method", "extract-variable", "inline", "move", "move-bad-dest",
          "change-signature", "introduce-parameter", "encapsulate-field", "introduce-factory", "method-object",
@@ -275,8 +277,12 @@ def run_case(spec):
                                                   "previewed new_contents", file=os.path.relpath(rp, tmp))
                                     break
                     else:
+                        def mentioned(rel):
+                            # the file itself, or a folder that contains it (a folder move lists the folder)
+                            parts = rel.split("/")
+                            return any("/".join(parts[:i]) in descr for i in range(len(parts), 0, -1))
                         missing = [os.path.relpath(p, root) for p in changed_paths
-                                   if os.path.isfile(p) and os.path.relpath(p, root).replace(os.sep, "/") not in descr]
+                                   if os.path.isfile(p) and not mentioned(os.path.relpath(p, root).replace(os.sep, "/"))]
                         if missing and exc is None:
                             res.violation(f"description-omits-changed-resource|{kind}", "the previewed description does not "
                                           "mention a resource that was changed", missing=missing)
